@@ -8,6 +8,7 @@ import (
 	"testing"
 
 	"verif/harness/asam"
+	"verif/harness/iosm"
 	"verif/harness/tool"
 )
 
@@ -79,6 +80,74 @@ func TestCorpusASA(t *testing.T) {
 		t.Logf("uncovered %3d  %s", reasons[k], k)
 	}
 	t.Logf("ASA corpus: %d covered of %d", covered, total)
+	if len(bad) > 0 {
+		t.Fatalf("model disagrees with the maintainers' expected outputs (model error or defect):\n%s", strings.Join(bad, "\n\n"))
+	}
+}
+
+// TestCorpusIOS calibrates the IOS model on the repository's expected outputs.
+func TestCorpusIOS(t *testing.T) {
+	triples, err := LoadCorpus()
+	if err != nil {
+		t.Fatal(err)
+	}
+	covered, total := 0, 0
+	reasons := map[string]int{}
+	var bad []string
+	for _, tr := range triples {
+		if tr.Family != "ios" || tr.Scenario || !tr.HasOutput || tr.Error != "" {
+			continue
+		}
+		total++
+		c := &Case{Family: "ios", Files: tr.Files}
+		a, err := iosm.Parse(tr.Files["device"])
+		if err != nil {
+			reasons["device: "+clip(err.Error(), 50)]++
+			continue
+		}
+		b, err := iosTarget(c)
+		if err != nil {
+			reasons["target: "+clip(err.Error(), 50)]++
+			continue
+		}
+		st := a.Clone()
+		ok, unsup := true, false
+	STEPS:
+		for i, step := range tool.CiscoScript(tr.Output) {
+			for _, cmd := range step {
+				if err := st.Exec(cmd); err != nil {
+					var u *iosm.ErrUnsupported
+					if errors.As(err, &u) {
+						reasons["exec: "+clip(err.Error(), 50)]++
+						unsup = true
+					} else {
+						bad = append(bad, fmt.Sprintf("%s/%s: step %d %q: %v", tr.File, tr.Title, i+1, cmd, err))
+						ok = false
+					}
+					break STEPS
+				}
+			}
+		}
+		if unsup || !ok {
+			continue
+		}
+		st.EndSession()
+		sc := iosm.ScopeOf(b)
+		if got, want := st.Canon(sc), b.Canon(sc); got != want {
+			bad = append(bad, fmt.Sprintf("%s/%s: not equivalent after expected output\n--- got\n%s\n--- want\n%s", tr.File, tr.Title, got, want))
+			continue
+		}
+		covered++
+	}
+	keys := make([]string, 0, len(reasons))
+	for k := range reasons {
+		keys = append(keys, k)
+	}
+	sort.Strings(keys)
+	for _, k := range keys {
+		t.Logf("uncovered %3d  %s", reasons[k], k)
+	}
+	t.Logf("IOS corpus: %d covered of %d", covered, total)
 	if len(bad) > 0 {
 		t.Fatalf("model disagrees with the maintainers' expected outputs (model error or defect):\n%s", strings.Join(bad, "\n\n"))
 	}
